@@ -225,5 +225,20 @@ Theorem C16_dow_b64 : forall j : float, B64Verified.fin j ->
   Epoch_dow B0 (VObj cEpoch [VFloat j]) (VBool false)
   = VInt (Raux.Zfloor (B64Verified.RV j + 3 / 2)%R mod 7).
 Proof. exact C16_b64.dow_b64. Qed.
+
+(* mean_sidereal_time, binary64, EVERY finite JDE j with 0 <= j <= 2^23 (year 18254): it returns a float r
+   (no exception), r = x % 1 (Python's float %, B64Eval.pymod) of a finite float x >= 0 -- every summand
+   of x is non-negative because jd0 is the PRECEDING 0h -- so r is the exact fractional part of x and
+   0 <= r < 1: the value 1.0, which float % 1 yields for tiny negative arguments, cannot occur *)
+From PyLib Require B64Eval.
+From Proofs.C16 Require C16_mst_b64.
+Theorem C16_sidereal_b64 : forall j : float, B64Verified.fin j ->
+  (0 <= B64Verified.RV j <= 8388608)%R ->
+  exists x r, Epoch_mean_sidereal_time B0 (VObj cEpoch [VFloat j]) = VFloat r /\ r = B64Eval.pymod x 1 /\
+              B64Verified.fin x /\ (0 <= B64Verified.RV x)%R /\ B64Verified.fin r /\
+              (0 <= B64Verified.RV r < 1)%R /\
+              (B64Verified.RV r = B64Verified.RV x - IZR (Raux.Zfloor (B64Verified.RV x)))%R.
+Proof. exact C16_mst_b64.mst_b64. Qed.
 End B64AllFloats.
 Redirect "C16_dow_b64.assumptions" Print Assumptions B64AllFloats.C16_dow_b64.
+Redirect "C16_sidereal_b64.assumptions" Print Assumptions B64AllFloats.C16_sidereal_b64.
